@@ -61,7 +61,7 @@ ASSUMPTIONS = [
     "simulation: material values of moderate size (permeability 1e-3..1, viscosity 1e-3..1, aperture 1e-2..1e-1) so that the Jacobian is well conditioned in every generated unit system; with the granite / water values of the repository's test the sparse direct solvers return solutions with relative residuals up to 0.25 for some unit systems, which says nothing about units",
 ]
 REQUIRED = {
-    "convert": 0.3, "material": 0.2, "sim": 0.003,
+    "convert": 0.3, "material": 0.2, "sim": 0.003, "units-single-base-scaled": 0.05, "units-rad-scaled": 0.005,
     "tok-derived": 0.1, "tok-power": 0.1, "tok-negative-power": 0.05, "dimensionless": 0.02, "with-blanks": 0.1,
     "value-array": 0.05, "value-int": 0.05, "scales-pow10": 0.1, "scales-float": 0.1,
     "mat-FluidComponent": 0.03, "mat-SolidConstants": 0.03, "mat-NumericalConstants": 0.03,
@@ -84,8 +84,17 @@ _num = st.one_of(st.just(0.0), st.integers(-1000, 1000).map(float),
 
 @st.composite
 def _scales(draw):
-    mode = draw(st.sampled_from(["pow10", "float", "mixed"]))
+    mode = draw(st.sampled_from(["pow10", "float", "mixed", "single", "single"]))
     out = {}
+    if mode == "single":
+        # exactly one base unit is scaled, every other one is exactly 1 (absent, 1 or 1.0)
+        key = draw(st.sampled_from(["m", "kg", "K", "mol", "rad", "rad"]))
+        for k in ["m", "kg", "K", "mol", "rad", "s"]:
+            if k == key:
+                out[k] = draw(st.one_of(st.sampled_from([1e-3, 1e3, 2, 0.5]), st.floats(1e-3, 0.9), st.floats(1.1, 1e3)))
+            elif draw(st.booleans()):
+                out[k] = draw(st.sampled_from([1, 1.0]))
+        return out
     for k in ["m", "kg", "K", "mol", "rad"]:
         if draw(st.integers(0, 3)) == 0:
             continue  # left at its default 1
@@ -123,9 +132,18 @@ def _convert(draw):
 
 @st.composite
 def _material(draw):
-    return {"kind": "material", "cls": draw(st.integers(0, 3)), "scales": draw(_scales()), "scales2": draw(_scales()),
-            "mask": draw(st.lists(st.booleans(), min_size=24, max_size=24)),
-            "vals": draw(st.lists(st.one_of(_num, st.integers(-100, 100)), min_size=24, max_size=24))}
+    scales = draw(_scales())
+    single = [k for k, v in scales.items() if v != 1]
+    cls = draw(st.integers(0, 3))
+    mask = draw(st.lists(st.booleans(), min_size=24, max_size=24))
+    vals = draw(st.lists(st.one_of(_num, st.integers(-100, 100)), min_size=24, max_size=24))
+    if len(single) == 1 and draw(st.integers(0, 2)) > 0:
+        # one scaled base unit: give every constant a non-zero value (incl. the angle-valued ones of SolidConstants)
+        mask = [True] * 24
+        vals = [v if v != 0 else 0.25 for v in vals]
+        if single == ["rad"] and draw(st.booleans()):
+            cls = 1
+    return {"kind": "material", "cls": cls, "scales": scales, "scales2": draw(_scales()), "mask": mask, "vals": vals}
 
 
 @st.composite
@@ -339,6 +357,12 @@ def _check_material(s):
     U, U2 = _units(s["scales"]), _units(s["scales2"])
     obj = cls(name="stuff", units=U, **given)
     labels = ["material", f"mat-{cname}"] + _scale_labels(s["scales"])
+    scaled = [k for k, v in s["scales"].items() if v != 1]
+    if len(scaled) == 1:
+        labels.append("units-single-base-scaled")
+        if scaled == ["rad"] and any("rad" in cls.SI_units[n] or "degree" in cls.SI_units[n] for n in given
+                                     if given[n] != 0):
+            labels.append("units-rad-scaled")
 
     def expected(v, n, scales):
         return float(v) / _factor(scales, _parse_si(cls.SI_units[n]))
